@@ -17,18 +17,30 @@ legs: MC   TLC: under EVERY interleaving of the per-row steps (NextRow, EvalBala
       A mismatch is replayed by TLC on the mechanism as shipped before fix 678e809 (one process-wide cache entry): if that
       explains the observation exactly the violation gets the key of that defect (listed as fixed in known_findings.d).
 
-The whole execution (spec/Isolate.tla, harness/isolate.py) -- compilation followed by the scan, plain columns, parameters:
-      MC   every interleaving of the COMPILATION steps (parameters stored, FROM, wildcard, names resolved, parameter
+The whole execution (spec/Isolate.tla, harness/isolate.py) -- PARSING of the statement text, compilation, then the scan
+of ANY table of the connection (#entries, #postings, the typed tables #transactions / #prices / #events / #notes /
+#balances / #documents / #commodities over ledgers that hold directives of several types), plain columns, parameters:
+      MC   every interleaving of the PARSER steps (a parser takes the text, reads it token by token, the tree is
+           complete), the COMPILATION steps (parameters stored, FROM, wildcard, names resolved, parameter
            values read, query built) and the scan steps (row advance, WHERE test, one step per target) of 2 threads x 3
-           directives / 3 threads x 2: each thread's rows are its serial rows, its statement is bound to its own
-           parameters, every value belongs to the row of its own scan; non-interference; termination.  Non-vacuity: one
-           compiler kept per connection, and a column accessor remembering the current row by rowid, are both refuted.
-      S2C  TLC enumerates every pause-point schedule of six job families (same text with different parameters on one
-           connection, SELECT *, two tables of one connection, two ledgers, 3 threads mixed); pause points INSIDE the
+           directives / 3 threads x 2: each thread's rows are its serial rows, its syntax tree was read from its own
+           text, its statement is bound to its own parameters, every value belongs to the row of its own scan;
+           non-interference; termination.  Non-vacuity: one compiler kept per connection, a column accessor
+           remembering the current row by rowid, ONE parser object for every parse() call of the process, and the rows
+           of a typed table kept on the table object while the first scan is still filling them, are all refuted.
+      S2C  TLC enumerates every pause-point schedule of ten job families (same text with different parameters on one
+           connection, SELECT *, two tables of one connection, two ledgers, 3 threads mixed; statements submitted as
+           TEXT by threads that share nothing but the module, descheduled INSIDE the parser; two and three scans of
+           the typed tables of one connection advancing row by row); pause points INSIDE the
            compilation are reached through folded BQL functions, the tables' wildcard_columns property and the
-           parameters container; the abstract columns are realised by every plain column of #entries / #postings
-           (id, date, narration, payee, links, tags, description, lineno, account, number, position, ...).
-      C2S  seeded runs of 2..4 threads with random jobs over 1..3 connections, grant log judged by Trace_Isolate.
+           parameters container, pause points inside the parser through a sys.monitoring callback on the code of
+           beanquery/parser (harness/isolate.py ParserPauses); the abstract columns are realised by every plain
+           column of the tables (id, date, narration, payee, links, tags, description, lineno, account, number, position,
+           currency, amount.number, type, comment, filename, name, meta['lineno'], ...).  The concurrent runs meet
+           connections nothing has been executed on before (the serial reference runs alternate between connections
+           of their own and the connections of the concurrent run).
+      C2S  seeded runs of 2..4 threads with random jobs (any table, text or syntax tree) over 1..3 connections, grant
+           log judged by Trace_Isolate.
 """
 import json
 import random
@@ -356,6 +368,10 @@ def run(ctx):
         'beancount.core.compare.hash_entry (decoding of the id column) are trusted; pause points inside the compilation '
         'are the folded BQL functions cpause() / cyield(), the wildcard_columns property of harness tables and the '
         '__getitem__ of the parameters container -- interleavings between other compilation steps are model-checked only',
+        'Isolate: pause points inside beanquery.parser.parse() are the entries of the functions of beanquery/parser/*.py '
+        '(generated rule methods, semantic actions, node constructors), reached by a sys.monitoring (PEP 669, CPython '
+        '3.12) PY_START callback that acts only in scheduled threads; which of them (job.parse of about 400 per '
+        'statement) is a function of the case number; pre-emption inside TatSu\'s own functions is not driven',
     ]
     rng = ctx.rng
     sched.register()
@@ -505,11 +521,12 @@ def shared_text_leg(ctx, nruns):
 
 
 # ---- the whole execution: compilation + scan, plain columns, parameters (spec/Isolate.tla) -----------------------------------
-ICOVER = ('Begin', 'From', 'Resolve', 'Bind', 'CompilePause', 'Build', 'NextRow', 'Finish', 'Test', 'Column', 'Yield',
+ICOVER = ('ParseStart', 'Token', 'ParseEnd', 'Begin', 'From', 'Resolve', 'Bind', 'CompilePause', 'Build', 'NextRow', 'Finish', 'Test', 'Column', 'Yield',
           'Const', 'EmitRow')
 ISO_LIMITS = {'params': (20, None), 'star': (20, None), 'rows': (70, None), 'tables': (110, None), 'mix3': (120, 3000),
-              'sep3': (80, 2000)}        # schedules replayed per family (quick, thorough); None = all
-ISO_REPEAT = {'params': 2, 'star': 1, 'rows': 3}     # small families: every schedule with several column choices
+              'sep3': (80, 2000), 'parse': (20, None), 'parse3': (40, 600), 'typed': (35, None),
+              'typed3': (70, None)}        # schedules replayed per family (quick, thorough); None = all
+ISO_REPEAT = {'params': 2, 'star': 1, 'rows': 3, 'typed': 3}     # small families: every schedule with several column choices
 
 
 def atom(k, i=0):
@@ -521,25 +538,40 @@ def random_jobs(rng):
     nconn = rng.randint(1, min(3, nt))
     ledgers = {}
     for g in (1, 2):
-        ledgers[g] = [{'u': 10 * g + d, 'posts': [100 * g + 10 * d + j for j in range(1, 1 + rng.choice((0, 1, 1, 2)))]}
+        ledgers[g] = [{'u': 10 * g + d, 'posts': [100 * g + 10 * d + j for j in range(1, 1 + rng.choice((0, 1, 1, 2)))], 'ty': 0}
                       for d in range(1, 1 + rng.randint(1, 4))]
+    if rng.random() < 0.5:
+        # directives of other types (prices, events, notes, ...) among the transactions: the typed tables
+        types = rng.sample(range(1, 7), 2)
+        for g in (1, 2):
+            extra = [{'u': 10 * g + d, 'posts': [], 'ty': rng.choice(types)} for d in range(5, 5 + rng.randint(1, 4))]
+            ledgers[g] = ledgers[g] + extra
+            rng.shuffle(ledgers[g])
+    typed = sorted({d['ty'] for g in (1, 2) for d in ledgers[g]})
+
+    def pick_table():
+        tab = rng.choice('epx' if len(typed) == 1 else 'epxxx')
+        return tab, (rng.choice(typed) if tab == 'x' else 0)
+    hot = pick_table()
     of_conn = {c: ledgers[rng.choice((1, 2))] for c in range(1, nconn + 1)}
     conns = list(range(1, nconn + 1)) + [rng.randint(1, nconn) for _ in range(nt - nconn)]
     rng.shuffle(conns)
     jobs = []
     for c in conns:
-        tab = rng.choice('ep')
+        # the threads of a run tend to meet in one table (same table object when they share the connection)
+        tab, ty = hot if rng.random() < 0.5 else pick_table()
         star = rng.random() < 0.15
         targets = [] if star else [rng.choice((atom('col', 1), atom('col', 2), atom('col', 2), atom('col', 3), atom('rp'),
                                                atom('rp'), atom('cp'))) for _ in range(rng.randint(1, 4))]
         if not star and not any(a['k'] == 'col' for a in targets):
             targets.insert(rng.randint(0, len(targets)), atom('col', 2))
         where = rng.sample(['lo', 'hi', 'rp', 'cp'], rng.choice((0, 1, 1, 2, 2, 3)))
-        keys = [r[0] for r in iso.table_rows(of_conn[c], tab)] or [0]
+        keys = [r[0] for r in iso.table_rows(of_conn[c], tab, ty)] or [10]
         jobs.append({'conn': c, 'ledger': of_conn[c], 'tab': tab, 'star': star, 'targets': targets,
                      'where': [atom(k) for k in where], 'lo': rng.choice(keys + [min(keys) - 1]),
                      'hi': rng.choice(keys + [max(keys) + 1]), 'lit': rng.random() < 0.4,
-                     'wpause': star and rng.random() < 0.6, 'ppause': rng.random() < 0.5})
+                     'wpause': star and rng.random() < 0.6, 'ppause': rng.random() < 0.5, 'ty': ty,
+                     'parse': rng.choice((0, 0, 0, 0, 0, 0, 1, 2))})
     return jobs
 
 
@@ -642,6 +674,9 @@ def isolate_start(ctx):
         out['nv1'] = ctx.tlc('MC_Isolate', 'MC_Isolate_compiler.cfg', leg='MC-nonvacuity', expect_violation='OwnParameters',
                              workers=2)
         out['nv2'] = ctx.tlc('MC_Isolate', 'MC_Isolate_memo.cfg', leg='MC-nonvacuity', expect_violation='OwnRow', workers=2)
+        out['nv3'] = ctx.tlc('MC_Isolate', 'MC_Isolate_parser.cfg', leg='MC-nonvacuity', expect_violation='OwnStatement',
+                             workers=2)
+        out['nv4'] = ctx.tlc('MC_Isolate', 'MC_Isolate_scan.cfg', leg='MC-nonvacuity', expect_violation='SerialInv', workers=2)
         out['gen'] = ctx.tlc('Gen_Isolate', 'Gen_Isolate_all.cfg', leg='GEN', workers=w, timeout=ctx.pick(600, 3000))
         out['trace'] = ctx.tlc('Trace_Isolate', 'Trace_Isolate.cfg', leg='C2S', workers=1, env={'TRACE_FILE': path},
                                timeout=ctx.pick(900, 3000), jvm=('-Xss64m',))
@@ -662,7 +697,8 @@ def isolate_finish(ctx, bg):
     def steps(res):
         return [ln.split('<')[1].split(' ')[0] for ln in res.behaviour.split('\n')
                 if ln.startswith('State ') and '<' in ln and 'Initial' not in ln]
-    ctx.leg('MC', isolate_compiler_per_connection_schedule=steps(out['nv1']), isolate_rowid_memo_schedule=steps(out['nv2']))
+    ctx.leg('MC', isolate_compiler_per_connection_schedule=steps(out['nv1']), isolate_rowid_memo_schedule=steps(out['nv2']),
+            isolate_process_wide_parser_schedule=steps(out['nv3']), isolate_lazy_table_rows_schedule=steps(out['nv4']))
     # ---- S2C
     rng = bg['rng']
     fams = {}
@@ -695,7 +731,9 @@ def isolate_finish(ctx, bg):
                         'style': case.describe()}
                 if nrun % 10 == 0:
                     # every job alone, one after the other: the serial results of the code are the specification's rows
-                    got = iso.run_serial(case)
+                    # (alternately on the connections of the concurrent run -- connections with a history -- and on
+                    # connections of their own, so that the concurrent run meets connections nothing has run on yet)
+                    got = iso.run_serial(case if nrun % 20 == 0 else iso.Case(jobs, pick))
                     nser += 1
                     for t in sorted(exp):
                         if got[t] != exp[t]:
